@@ -240,6 +240,34 @@ func reentryMain(args []string) {
 						lb.RemovePipelineAndNodes(ctx, "outer", "lp")
 					})
 				}
+				// refused calls give the lock back: a refused overwrite of a DenyOverwrite pipeline, a refused
+				// RegisterNode, a second removal of a pipeline -- and then ordinary calls
+				{
+					db, _ := eventlogger.NewBroker()
+					db.RegisterNode("df", mk(eventlogger.NodeTypeFormatter), eventlogger.WithNodeRegistrationPolicy(eventlogger.DenyOverwrite))
+					db.RegisterNode("ds", mk(eventlogger.NodeTypeSink))
+					dp := eventlogger.Pipeline{PipelineID: "dp", EventType: "inner", NodeIDs: []eventlogger.NodeID{"df", "ds"}}
+					db.RegisterPipeline(dp, eventlogger.WithPipelineRegistrationPolicy(eventlogger.DenyOverwrite))
+					ok = ok && watchdog("a refused RegisterPipeline (DenyOverwrite), then Send", oracle, func() {
+						db.RegisterPipeline(dp)
+						db.Send(ctx, "inner", "x")
+					})
+					ok = ok && watchdog("a refused RegisterNode (DenyOverwrite), then SetSuccessThreshold", oracle, func() {
+						db.RegisterNode("df", mk(eventlogger.NodeTypeFormatter))
+						db.SetSuccessThreshold("inner", 0)
+					})
+					ok = ok && watchdog("RegisterPipeline with an unknown node / an invalid policy, then Reopen", oracle, func() {
+						db.RegisterPipeline(eventlogger.Pipeline{PipelineID: "dq", EventType: "inner", NodeIDs: []eventlogger.NodeID{"nope", "ds"}})
+						db.RegisterPipeline(eventlogger.Pipeline{PipelineID: "dq", EventType: "inner", NodeIDs: []eventlogger.NodeID{"df", "ds"}}, eventlogger.WithPipelineRegistrationPolicy("bogus"))
+						db.Reopen(ctx)
+					})
+					ok = ok && watchdog("RemovePipelineAndNodes twice, then RegisterNode", oracle, func() {
+						db.RemovePipelineAndNodes(ctx, "inner", "dp")
+						db.RemovePipelineAndNodes(ctx, "inner", "dp")
+						db.RemovePipeline("inner", "dp")
+						db.RegisterNode("after", mk(eventlogger.NodeTypeFilter))
+					})
+				}
 				// a wrapper node with nothing inside (Unwrap returns nil), no Closer: there is nothing to close, and
 				// the calls that would close it return
 				{
